@@ -111,3 +111,12 @@ int sr_evp_encrypt(const uint8_t pub[64], const uint8_t *in, size_t inlen, uint8
 	venv_in_ref++; int r = -1; EVP_PKEY *pk = mk_pkey(NULL, pub); if (pk) { EVP_PKEY_CTX *c = EVP_PKEY_CTX_new(pk, NULL); if (EVP_PKEY_encrypt_init(c) == 1) r = EVP_PKEY_encrypt(c, out, outlen, in, inlen) == 1; EVP_PKEY_CTX_free(c); EVP_PKEY_free(pk); } venv_in_ref--; return r; }
 int sr_evp_decrypt(const uint8_t d[32], const uint8_t pub[64], const uint8_t *in, size_t inlen, uint8_t *out, size_t *outlen) {
 	venv_in_ref++; int r = -1; EVP_PKEY *pk = mk_pkey(d, pub); if (pk) { EVP_PKEY_CTX *c = EVP_PKEY_CTX_new(pk, NULL); if (EVP_PKEY_decrypt_init(c) == 1) r = EVP_PKEY_decrypt(c, out, outlen, in, inlen) == 1; EVP_PKEY_CTX_free(c); EVP_PKEY_free(pk); } venv_in_ref--; return r; }
+
+/* build C2/C3 for a chosen C1 using the recipient's private key (lets the harness make valid ciphertexts whose C1 is a special point) */
+int sr_seal_with_c1(const uint8_t d[32], const uint8_t c1[64], const uint8_t *in, size_t n, uint8_t c3[32], uint8_t *c2) {
+	BIGNUM *dd = BN_bin2bn(d, 32, NULL); EC_POINT *Q = EC_POINT_new(G); uint8_t x2y2[64], t[300]; int ok = 0, nz = 0;
+	if (!sr_point_from_xy(Q, c1)) goto end; EC_POINT_mul(G, Q, NULL, Q, dd, C); if (!sr_point_to_xy(Q, x2y2)) goto end;
+	if (n) ref_x963kdf_sm3(x2y2, 64, n, t); for (size_t i = 0; i < n; i++) { if (t[i]) nz = 1; c2[i] = in[i] ^ t[i]; } if (!nz && n) goto end;
+	{ uint8_t buf[64 + 300]; memcpy(buf, x2y2, 32); memcpy(buf + 32, in, n); memcpy(buf + 32 + n, x2y2 + 32, 32); ref_digest("SM3", buf, 64 + n, c3); } ok = 1;
+end: BN_free(dd); EC_POINT_free(Q); return ok;
+}
